@@ -42,7 +42,11 @@ struct tcb g_cb;                        /* the thread's control block (or the re
 #define XV_NEWMAX XV_MAX(XV_K, (3 * XV_K) / 2)
 struct he_block_mem { struct he_block hdr; struct hazard_era slots[XV_NEWMAX]; };
 struct he_block_mem g_blk[2], g_new;
-unsigned g_nblk; _Bool g_new_used; size_t g_new_request;
+#ifndef XV_NBLK
+#define XV_NBLK 1
+#endif
+#define g_nblk XV_NBLK                  /* number of blocks that exist beforehand: a shape of the run */
+_Bool g_new_used; size_t g_new_request;
 #define NSLOT (3 * XV_K + XV_NEWMAX)
 static struct hazard_era* SLOT(int i) {
   if (i < XV_K) return &g_cb.eras[i];
@@ -140,10 +144,21 @@ static void blk_ctor(struct he_block* self, size_t size);
 #define CB_alloc_hazard_era(cb, hint, era) cb_alloc_hazard_era(&(cb), &(hint), (era))
 #define CB_release_hazard_era(cb, he, hint) cb_release_hazard_era(&(cb), &(he), &(hint))
 #define XV_INIT_size(self, v) ((self)->size = (v))
+/* reinterpret_cast<hazard_era*>(this + 1): the slots of a block start right behind its header (layout of the buffer obtained from operator new) */
+static struct hazard_era* xv_slots_after(struct he_block* end_of_header) {
+#ifdef XV_DYN
+  /* (object, offset) comparisons: these fold to constants during symbolic execution when the header address is a constant */
+  if (__CPROVER_POINTER_OBJECT(end_of_header) == __CPROVER_POINTER_OBJECT(&g_new) && __CPROVER_POINTER_OFFSET(end_of_header) == sizeof(struct he_block)) return g_new.slots;
+  if (__CPROVER_POINTER_OBJECT(end_of_header) == __CPROVER_POINTER_OBJECT(g_blk) && __CPROVER_POINTER_OFFSET(end_of_header) == sizeof(struct he_block)) return g_blk[0].slots;
+  if (__CPROVER_POINTER_OBJECT(end_of_header) == __CPROVER_POINTER_OBJECT(g_blk) && __CPROVER_POINTER_OFFSET(end_of_header) == sizeof(struct he_block_mem) + sizeof(struct he_block)) return g_blk[1].slots;
+#endif
+  XV_MODEL_ASSERT("slots_after: not a block header", 0);
+  return (struct hazard_era*)0;
+}
 #define XV_CONSTRUCT_SLOT(it) ((it)->value.w = 0, (it)->value.lp = 0, (it)->value.mark = 0, (it)->guard_cnt = 0)   /* new (it) hazard_era: value{nullptr}, guard_cnt = 0 */
 #ifdef XV_DYN
 /* hazard_eras_block::operator new + placement new: hands out the storage g_new; the default member initialiser next = nullptr is applied here */
-static void* xv_block_new(size_t bytes) { g_new_request = bytes; g_new_used = 1; return &g_new; }
+static void* xv_block_new(size_t bytes) { g_new_request = bytes; g_new_used = 1; return &g_new.hdr; }
 static struct he_block* xv_block_ctor(void* buffer, size_t hes) { struct he_block* b = (struct he_block*)buffer; b->next = 0; blk_ctor(b, hes); return b; }
 #define XV_BLOCK_NEW(bytes) xv_block_new(bytes)
 #define XV_BLOCK_CTOR(buffer, hes) xv_block_ctor((buffer), (hes))
@@ -314,10 +329,11 @@ static void havoc_state(const struct guard* a, const struct guard* b) {
   in_K = XV_K;
   in_has_cb = nondet_bool(); in_hint = nondet_uint(); in_last = nondet_uint(); in_last_era = nondet_u64(); in_clock = nondet_u64(); in_mask = nondet_uptr();
 #ifdef XV_DYN
-  g_nblk = nondet_uint(); XV_ASSUME(g_nblk <= 2); g_new_used = 0; g_new_request = 0;
+  g_new_used = 0; g_new_request = 0;
+  in_has_cb = 1;      /* dynamic runs start from a thread that has its record (first use = initialize, checked by h_initialize); keeps the record address concrete */
   g_blk[0].hdr.next = 0; g_blk[0].hdr.size = XV_K; g_blk[1].hdr.next = &g_blk[0].hdr; g_blk[1].hdr.size = XV_K;
   g_new.hdr.next = any_slot_or_null() ? &g_blk[0].hdr : (struct he_block*)0; g_new.hdr.size = nondet_size();     /* raw storage */
-  g_cb.he_block = g_nblk == 0 ? (struct he_block*)0 : &g_blk[g_nblk - 1].hdr; g_cb.total_number_of_hes = XV_K * (1 + (size_t)g_nblk);
+  g_cb.he_block = g_nblk == 0 ? (struct he_block*)0 : &g_blk[g_nblk == 0 ? 0 : g_nblk - 1].hdr; g_cb.total_number_of_hes = XV_K * (1 + (size_t)g_nblk);
 #else
   g_cb.total_number_of_hes = nondet_size(); g_cb.he_block = 0;
 #endif
@@ -483,8 +499,6 @@ static void h_initialize(void) {
   for (int b = 1; b >= 0; b--) if ((int)g_nblk > b)
     for (int i = 0; i < XV_K; i++) { ok = ok && p == &g_blk[b].slots[i] && p->value.mark == 1 && p->guard_cnt == 0; if (ok) p = p->value.lp; n++; }
   XV_OBL("he.initialize.all_free", g_number_of_active_hes == act + XV_K * (1 + (size_t)g_nblk) && g_cb.total_number_of_hes == XV_K * (1 + (size_t)g_nblk));
-  if (g_nblk == 2) XV_CANARY("initialize.two_blocks");
-  if (g_nblk == 0) XV_CANARY("initialize.no_block");
 #else
   XV_OBL("he.initialize.all_free", g_number_of_active_hes == act + XV_K);
 #endif
@@ -536,16 +550,15 @@ static void h_dyn_alloc(void) {
     _Bool old_same = 1; for (int i = 0; i < 3 * XV_K; i++) if (slot_live(i)) old_same = old_same && slot_same(i);
     XV_OBL("he.dyn.new_block", old_same);
     XV_CANARY("dyn.new_block");
-    if (g_nblk == 2) XV_CANARY("dyn.third_block");
   } else {
     XV_OBL("he.dyn.new_block", !g_new_used && g_cb.total_number_of_hes == total0 && g_cb.he_block == head0 && g_number_of_active_hes == pre_active && slots_same_except(r));
     XV_CANARY("dyn.no_new_block");
   }
+  XV_OBL("he.guard_ops.others_intact", others_intact(0));
   FOR_SLOT(j, r) g_others[j]++;
   struct inv_res res = inv_eval(0, 0);
   XV_OBL("he.count.exact", res.count_ok);
   XV_OBL("he.guard_ops.preserve_inv", res.rest_ok);
-  XV_OBL("he.guard_ops.others_intact", others_intact(0));
 }
 void h_dyn(void) {
   in_op = nondet_uint();
